@@ -43,6 +43,18 @@ var (
 	localJID  = jid.MustParse("me@example.net/res")
 	remoteJID = jid.MustParse("example.net")
 	errBoom   = errors.New("c10: handler failed")
+
+	// what a handler may return besides a plain error: values that ARE or merely WRAP the
+	// sentinels Serve and sendError look for
+	handlerErrs = map[string]error{
+		"he": io.EOF,
+		"hw": fmt.Errorf("c10: decoding payload: %w", io.EOF),
+		"hu": fmt.Errorf("c10: decoding payload: %w", io.ErrUnexpectedEOF),
+		"hj": errors.Join(errors.New("c10: first failure"), io.EOF),
+		"hs": fmt.Errorf("c10: refused: %w", stream.Conflict),
+		"hz": fmt.Errorf("c10: refused: %w", stanza.Error{Type: stanza.Cancel, Condition: stanza.BadRequest}),
+	}
+	handlerErrOps = []string{"he", "hw", "hu", "hj", "hs", "hz"}
 )
 
 // conn reads from one end of a net.Pipe (so read deadlines work) and records
@@ -177,6 +189,8 @@ func (t *tsess) handler() xmpp.Handler {
 			err = errBoom
 		case "s":
 			err = stream.Conflict
+		default:
+			err = handlerErrs[what]
 		}
 		t.handled <- what
 		return err
@@ -271,9 +285,20 @@ func (t *tsess) txCtx(ctx context.Context, op string, n int) (res string) {
 
 func classifyRet(err error) string {
 	var se stream.Error
+	for _, k := range handlerErrOps {
+		// the very value the handler returned
+		if k != "he" && err == handlerErrs[k] {
+			if k == "hs" {
+				return "streamerr"
+			}
+			return "handlererr"
+		}
+	}
 	switch {
 	case err == nil:
 		return "nil"
+	case err == io.ErrUnexpectedEOF:
+		return "unexpectedeof"
 	case errors.Is(err, errBoom):
 		return "handlererr"
 	case errors.Is(err, xmpp.ErrOutputStreamClosed):
@@ -330,7 +355,8 @@ func wireItems(b []byte) (items []string, bad error) {
 	return items, nil
 }
 
-var peerOps = map[string]bool{"m": true, "y": true, "h": true, "s": true, "e": true, "p": true, "g": true, "d": true}
+var peerOps = map[string]bool{"m": true, "y": true, "h": true, "s": true, "e": true, "p": true, "g": true, "d": true,
+	"he": true, "hw": true, "hu": true, "hj": true, "hs": true, "hz": true}
 
 type ctxT struct {
 	r      *common.Run
@@ -463,7 +489,7 @@ func (c *ctxT) hist(serve bool, ops []string, class string) {
 			outWasClosed := t.s.State()&xmpp.OutputStreamClosed != 0
 			terminal := false
 			switch op {
-			case "m", "y", "h", "s":
+			case "m", "y", "h", "s", "he", "hw", "hu", "hj", "hs", "hz":
 				t.mu.Lock()
 				t.plan = append(t.plan, op)
 				t.mu.Unlock()
@@ -481,7 +507,7 @@ func (c *ctxT) hist(serve bool, ops []string, class string) {
 					res = append(res, "STALL")
 					continue
 				}
-				terminal = preempted || op == "h" || op == "s" || (op == "y" && outWasClosed)
+				terminal = preempted || op == "h" || op == "s" || handlerErrs[op] != nil || (op == "y" && outWasClosed)
 				if !terminal {
 					// a keep-alive is only read once the previous element has been dealt with
 					t.feedWithin(" ", 2*time.Second)
@@ -510,7 +536,7 @@ func (c *ctxT) hist(serve bool, ops []string, class string) {
 				termEvent = op
 				deadlineAtTerm = lastDeadline
 				closedKnown = true
-				errExpected = !outWasClosed && (op == "h" || op == "s" || op == "g") && lastDeadline != "dz"
+				errExpected = !outWasClosed && (op == "h" || op == "s" || op == "g" || handlerErrs[op] != nil) && lastDeadline != "dz"
 			}
 			res = append(res, "ok")
 		default:
@@ -561,7 +587,8 @@ func (c *ctxT) hist(serve bool, ops []string, class string) {
 	}
 	if termEvent != "" {
 		want := map[string]string{"p": "nil", "e": "peerstreamerr", "s": "streamerr", "h": "handlererr", "g": "garbage", "d": "deadline", "y": "closedout",
-			"dp": "deadline", "v": "deadline", "m+": "deadline", "y+": "deadline"}[termEvent]
+			"dp": "deadline", "v": "deadline", "m+": "deadline", "y+": "deadline",
+			"he": "unexpectedeof", "hw": "handlererr", "hu": "handlererr", "hj": "handlererr", "hs": "streamerr", "hz": "handlererr"}[termEvent]
 		if deadlineAtTerm == "dz" && termEvent != "d" && termEvent != "dp" && termEvent != "g" {
 			// the context in force had expired (zero time): Serve gives up at its next look at it
 			want = "deadline"
@@ -569,7 +596,9 @@ func (c *ctxT) hist(serve bool, ops []string, class string) {
 		if want == "deadline" && termEvent != "d" && deadlineAtTerm == "df" {
 			fail("deadline-last-wins", "SetCloseDeadline", "the last close deadline set is an hour away, yet Serve returned a deadline error")
 		}
-		if ret != want {
+		if ret == "nil" && termEvent != "p" {
+			fail("serve-nil-only-on-peer-close", termEvent, fmt.Sprintf("Serve returned nil after event %s: the peer has not closed its stream", termEvent))
+		} else if ret != want {
 			fail("serve-returns", termEvent, fmt.Sprintf("Serve returned %q after event %s, expected %q", ret, termEvent, want))
 		}
 		if st&xmpp.OutputStreamClosed == 0 || st&xmpp.InputStreamClosed == 0 {
@@ -888,6 +917,22 @@ func Run(r *common.Run) error {
 	} {
 		c.hist(true, h, "corpus")
 	}
+	// every value a handler may return (identical / wrapped sentinels, joined, wrapped stream and
+	// stanza errors) in every history of length <= 3 over a reduced alphabet, exactly once
+	small := []string{"c", "t1", "m", "y", "p", "df", "dz", "r"}
+	for _, he := range append([]string{"h", "s"}, handlerErrOps...) {
+		c.hist(true, []string{he}, "handler-errors")
+		for _, a := range small {
+			c.hist(true, []string{a, he}, "handler-errors")
+			c.hist(true, []string{he, a}, "handler-errors")
+			for _, b := range small {
+				c.hist(true, []string{a, b, he}, "handler-errors")
+				c.hist(true, []string{a, he, b}, "handler-errors")
+			}
+		}
+		c.hist(false, []string{"v", he, "r"}, "handler-errors")
+	}
+	r.Exhaustive = append(r.Exhaustive, fmt.Sprintf("every handler return value of %v (and the plain / stream error) at every position of every history of length <= 3 with the other operations from %v", handlerErrOps, small))
 	// the longest histories only over the operations that do not involve explicit deadline times
 	isNew := map[string]bool{"dp": true, "df": true, "dz": true, "v": true}
 	maxLen := r.Pick(3, 4)
@@ -955,6 +1000,9 @@ func Run(r *common.Run) error {
 		ops := make([]string, n)
 		for k := range ops {
 			ops[k] = alphabet[rnd.Intn(len(alphabet))]
+			if rnd.Chance(1, 12) {
+				ops[k] = handlerErrOps[rnd.Intn(len(handlerErrOps))]
+			}
 			if ops[k] == "d" && (countD(ops[:k]) > 0 || rnd.Chance(3, 4)) {
 				ops[k] = "c"
 			}
